@@ -280,16 +280,17 @@ def write_replay(prop, payload):
     return os.path.relpath(p, VERIF)
 
 
-def try_shrink(mod, case, still_fails, budget=200):
+def try_shrink(mod, case, still_fails, budget=200, seconds=25.0):
     if not hasattr(mod, "shrink"):
         return case
     cur = case
     improved = True
-    while improved and budget > 0:
+    t_end = time.time() + seconds
+    while improved and budget > 0 and time.time() < t_end:
         improved = False
         for cand in mod.shrink(cur):
             budget -= 1
-            if budget <= 0:
+            if budget <= 0 or time.time() > t_end:
                 break
             try:
                 if still_fails(cand):
@@ -338,10 +339,15 @@ def run_property(prop, tier, seed, replay=None):
         if hits:
             broken.append("forbidden tokens: " + "; ".join(hits[:5]))
         if tier == "thorough" and os.environ.get("VERIF_LEANCHECKER", "1") == "1":
-            rc, out = sh(["lake", "env", "leanchecker", "Cpl.Properties." + prop], cwd=LEAN, timeout=3000)
-            ctx.extra_coverage["leanchecker"] = "rc=%d %s" % (rc, out.strip()[-200:])
+            mods = sorted(import_closure("Cpl.Properties." + prop).keys())
+            rc, out = sh(["lake", "env", "leanchecker"] + mods, cwd=LEAN, timeout=3000)
+            ctx.extra_coverage["leanchecker"] = "rc=%d on %d modules (%s) %s" % (rc, len(mods), ", ".join(mods), out.strip()[-200:])
             if rc != 0:
-                broken.append("leanchecker rejected Cpl.Properties.%s: %s" % (prop, out[-800:]))
+                broken.append("leanchecker rejected the compiled modules of %s: %s" % (prop, out[-800:]))
+    # informational modules (regenerated-data facts that are not obligations of the property)
+    for im in getattr(mod, "INFO_MODULES", []):
+        ok_i, log_i = lake_build([im])
+        ctx.extra_coverage.setdefault("informational", {})[im] = "holds" if ok_i else "does not hold on the current source (not a violation): " + log_i[-300:]
     have_driver = os.path.exists(DRIVER)
 
     # 3. cases
@@ -482,13 +488,17 @@ def run_property(prop, tier, seed, replay=None):
             violations.append(("unproved", path, " no-failing-input-found"))
 
     # 5. evidence
+    def brief(c):
+        js = json.dumps(c)
+        return c if len(js) <= 1500 else dict(truncated_case=js[:1500] + " …", json_chars=len(js))
+
     samples = []
     for i, c in enumerate(ucases[:3]):
-        samples.append(dict(case=c, driver_line=lines[i], impl_answer=results[i][0][:400],
+        samples.append(dict(case=brief(c), driver_line=(str(lines[i])[:600] if lines[i] else lines[i]), impl_answer=results[i][0][:400],
                             model_answer=(model_ans[i] or "")[:400]))
     if len(ucases) > 6:
         j = len(ucases) // 2
-        samples.append(dict(case=ucases[j], driver_line=lines[j], impl_answer=results[j][0][:400],
+        samples.append(dict(case=brief(ucases[j]), driver_line=(str(lines[j])[:600] if lines[j] else lines[j]), impl_answer=results[j][0][:400],
                             model_answer=(model_ans[j] or "")[:400]))
     trusted = ["Lean 4 kernel (lean %s)" % lean_version(),
                "axioms used by the property theorems (as printed by #print axioms in this run): " + (", ".join(aud["axioms"]) or "none"),
